@@ -295,17 +295,17 @@ def check_generated(ctx, pid, items=None, ncases=None):
                 cov["equality"] = "regenerated text identical to the snapshot: covered by theories/%s/%s.vo, %s.vo built in this run" % (pid, names["eq"], names["prop"])
         else:
             diff = "".join(difflib.unified_diff(T.strip_headers(snap).splitlines(True), T.strip_headers(text).splitlines(True),
-                                                "theories/%s/Gen.v (snapshot)" % pid, "regenerated from " + C.REPO, n=2))
+                                                "theories/%s/%s.v (snapshot)" % (pid, names["gen"]), "regenerated from " + C.REPO, n=2))
             cov["diff"] = diff[:4000]
             rok, failed, log, nthm = reprove(pid, text, names)
             usable = failed != "Gen.v"
             if rok:
                 ctx.cov["discharged"] += 1
                 cov["equality"] = "regenerated text differs from the snapshot; GenEq.v / PropertyGen.v re-proved against it (%d theorems closed)" % nthm
-                ctx.notes.append("pyfun: regenerated Gallina differs from theories/%s/Gen.v but all equality theorems were re-proved" % pid)
+                ctx.notes.append("pyfun: regenerated Gallina differs from theories/%s/%s.v but all equality theorems were re-proved" % (pid, names["gen"]))
             else:
                 cov["equality"] = "regenerated text differs from the snapshot and %s does not check against it" % failed
-                fail("generated Gallina differs from theories/%s/Gen.v and the equality with the model is NOT re-proved (%s)" % (pid, failed),
+                fail("generated Gallina differs from theories/%s/%s.v and the equality with the model is NOT re-proved (%s)" % (pid, names["gen"], failed),
                      "diff snapshot -> regenerated:\n" + diff[:2500] + "\ncoqc:\n" + log)
 
     t2 = time.time()
